@@ -37,6 +37,7 @@ class Env:
         self.atoms = atoms or {}    # atom name -> (lo, hi)
         self.tables = tables or {}  # table symbol name -> list of ints
         self.events = []            # (kind, detail) side observations: index ranges, casts
+        self.memo = {}              # atom id -> interval (valid for this Env's atom ranges; create a new Env when they change)
 
 
 def imul(a, b):
@@ -87,6 +88,18 @@ def _const_arg(a, env, what):
 
 
 def atom_interval(a, env):
+    if a.args:
+        k = id(a)
+        hit = env.memo.get(k)
+        if hit is not None and hit[0] is a:
+            return hit[1]
+        r = _atom_interval(a, env)
+        env.memo[k] = (a, r)
+        return r
+    return _atom_interval(a, env)
+
+
+def _atom_interval(a, env):
     name = a.name
     if not a.args:
         if name in env.atoms:
